@@ -290,6 +290,8 @@ inductive Label where
   | pause                        -- `operator_paused` turns on (peering): the killer's pausing loop starts its rounds
   | resume                       -- `operator_paused` turns off
   | kFinal                       -- the killer's exit sweep (`finally:`) is over: no `stop_daemon` is started any more
+  | failForGood                  -- `_timer`: the series has failed for good (`state.done and state.counts.failure`):
+                                 -- `memory.forever_stopped.add(handler.id)` while the task keeps running (since a6c10de)
   deriving DecidableEq, Repr
 
 def step (c : Cfg) (s : St) : Label → Option St
@@ -297,6 +299,7 @@ def step (c : Cfg) (s : St) : Label → Option St
   | .pause => if s.paused.isNone && !s.killerDone then some { s with paused := some s.now } else none
   | .resume => if s.paused.isSome then some { s with paused := none } else none
   | .kFinal => some { s with killerDone := true }
+  | .failForGood => if s.run.isSome then some { s with forever := true } else none
   | .cycle inp => if s.known then some (cycle c inp s).1 else none   -- no event follows a uid's DELETED event
   | .exit =>
     match s.run with
@@ -483,8 +486,9 @@ def tstep (c : TCfg) (e : TEnv) (os : Nat → Outcome) (l : TLoc) : TRes :=
   | .idleDone => if e.stop then .cont { l with pc := .head } else .cont { l with pc := .invoke }
   | .invoke =>
     if l.done && l.failed then
-      -- a series that has failed for good: nothing is left to invoke, nothing to patch: never suspends;
-      -- the state stays done
+      -- a series that has failed for good (after at least one attempt; a failed state without any attempt is
+      -- made fresh again after the idle wait since 9118944 and is represented here as not done): nothing is
+      -- left to invoke, nothing to patch: never suspends; the state stays done
       .cont { l with pc := .post, started := e.now }
     else
       -- the handler call and the patch round-trip: suspends or not, as the run reports
